@@ -1080,3 +1080,21 @@ func SortedKeys(m map[string]int) []string {
 	sort.Strings(ks)
 	return ks
 }
+
+// SendTo / RecvFrom are guarded channel operations for hand-written harness
+// code (which is not passed through the instrumenter).
+func SendTo(ch interface{}, v interface{}) {
+	h := BeforeSend(ch)
+	reflect.ValueOf(ch).Send(reflect.ValueOf(v))
+	After(h)
+}
+
+func RecvFrom(ch interface{}) (interface{}, bool) {
+	h := BeforeRecv(ch)
+	v, ok := reflect.ValueOf(ch).Recv()
+	After(h)
+	if !ok {
+		return nil, false
+	}
+	return v.Interface(), true
+}
